@@ -202,7 +202,11 @@ func (c *SchemaCtx) IssueFromUnknownError(err error) *ZogIssue {
 	if !ok {
 		return c.Issue().SetError(err)
 	}
-	return zerr
+	// the issue belongs to whoever built it (a callback may return the same one on every call). The execution
+	// works on a copy of its own, which a Catch or the Collect helpers may hand to the issue pool
+	e := NewZogIssue()
+	*e = *zerr
+	return e
 }
 
 // Frees the context to be reused
